@@ -17,14 +17,30 @@ GLOBAL_OVERRIDES = {
 
 
 # ------------------------------------------------------------------ time
-# time.Time{wall uint64, ext int64, loc *Location} is modelled as wall=0, ext=nanoseconds (symbolic int64), loc=nil.
-# time.Now() returns non-decreasing instants in [0, 2^61).
+# time.Time{wall uint64, ext int64, loc *Location} is modelled as
+#   zero value      : wall=0, ext=0            (year 1; IsZero)
+#   any other instant: wall=1, ext=nanoseconds since the Unix epoch (symbolic int64), loc=nil
+# time.Now() returns non-decreasing instants in [0, 2^61). Instants before the epoch are outside the model.
 def mktime(ns):
-    return [0, ns, None]
+    return [1, ns, None]
 
 
 def tns(t):
+    if t[0] == 0:
+        raise Unsupported("arithmetic on the zero time.Time")
     return t[1]
+
+
+def tcmp(ex, op, a, b):
+    """compare two model times; the zero time is before every other instant"""
+    from .exec import compare_int
+    za, zb = a[0] == 0, b[0] == 0
+    if za or zb:
+        ka, kb = (0 if za else 1), (0 if zb else 1)
+        return {"<": ka < kb, ">": ka > kb, "==": ka == kb}[op]
+    if op == "==":
+        return ex.eq(a[1], b[1])
+    return compare_int(op, a[1], b[1], 64, True)
 
 
 @exact("time.Now")
@@ -34,9 +50,9 @@ def time_now(ex, g, fid, args):
         return mktime(ex.now_conc)
     if ex.pinned is not None:
         raise Unsupported("time.Now in pinned mode")
-    t = ex.fresh("t", 64)   # on the tape for information; native runs use the real clock
+    t = ex.havoc(64, "t")
     last = getattr(ex, "now_last", None)
-    c = z3.And(t >= (last if last is not None else 0), t < (1 << 61))
+    c = z3.And(t >= (last if last is not None else 1), t < (1 << 61))
     ex.assume(c)
     ex.now_last = t
     return mktime(t)
@@ -65,26 +81,23 @@ def time_add(ex, g, fid, args):
 
 @exact("(time.Time).Before")
 def time_before(ex, g, fid, args):
-    from .exec import compare_int
-    return compare_int("<", tns(args[0]), tns(args[1]), 64, True)
+    return tcmp(ex, "<", args[0], args[1])
 
 
 @exact("(time.Time).After")
 def time_after(ex, g, fid, args):
-    from .exec import compare_int
-    return compare_int(">", tns(args[0]), tns(args[1]), 64, True)
+    return tcmp(ex, ">", args[0], args[1])
 
 
 @exact("(time.Time).Equal")
 def time_equal(ex, g, fid, args):
-    return ex.eq(tns(args[0]), tns(args[1]))
+    return tcmp(ex, "==", args[0], args[1])
 
 
 @exact("(time.Time).Compare")
 def time_compare(ex, g, fid, args):
-    from .exec import compare_int
-    lt = compare_int("<", tns(args[0]), tns(args[1]), 64, True)
-    gt = compare_int(">", tns(args[0]), tns(args[1]), 64, True)
+    lt = tcmp(ex, "<", args[0], args[1])
+    gt = tcmp(ex, ">", args[0], args[1])
     return ite(lt, norm(-1, 64, True), ite(gt, 1, 0, 64), 64)
 
 
@@ -100,7 +113,7 @@ def time_unix(ex, g, fid, args):
 
 @exact("(time.Time).IsZero")
 def time_iszero(ex, g, fid, args):
-    return ex.eq(tns(args[0]), 0)
+    return args[0][0] == 0
 
 
 @exact("(time.Time).UnixNano")
